@@ -36,7 +36,9 @@ def run(ctx):
     facts = []
     for q in TWINS:
         facts.append(_check_twin(ctx, prog.func(q)))
-    ctx.check(facts[0] == facts[1], "C11-twins-agree", TWINS[1],
+    deleg = [x for x in facts if x[0] == "delegates"]
+    ctx.require(len(deleg) < 2, "both calibration forms delegate")
+    ctx.check(bool(deleg) or _same_fact(facts), "C11-twins-agree", TWINS[1],
               "function and method form of the calibration agree",
               f"function: {facts[0]}  method: {facts[1]}")
     _check_predict(ctx, prog.func("mokapot.brew._predict"))
@@ -46,6 +48,12 @@ def run(ctx):
     # too (shared with C02b/d)
     from .c02 import _predict as _c02_predict
     _c02_predict(ctx, prog.func("mokapot.brew._predict"))
+
+
+def _same_fact(facts):
+    strip = [tuple(x for x in f if not str(x).startswith("targets:"))
+             for f in facts]
+    return strip[0] == strip[1]
 
 
 def _check_twin(ctx, f):
@@ -58,6 +66,29 @@ def _check_twin(ctx, f):
     ps = [p for p in f.params if p != "self"]
     p_scores = ps[0]
     rt = strip_conv(rt)
+    if rt[0] == "call" and rt[1] in TWINS and rt[1] != f.qual:
+        # one form delegates to the other: agreement by construction, as
+        # long as scores, threshold and direction are handed through
+        other = prog.func(rt[1])
+        ops = [p for p in other.params if p != "self"]
+        bound = dict(zip(ops, rt[2]))
+        bound.update(dict(rt[3]))
+        ok_args = (strip_conv(bound.get(ops[0], ("const", None)))
+                   == ("param", p_scores)
+                   and bound.get(ops[-2]) == ("param", ps[-2])
+                   and bound.get(ops[-1]) == ("param", ps[-1]))
+        ctx.check(ok_args, "C11a-label-args", f,
+                  "the delegating form hands its scores, eval_fdr and "
+                  "direction through",
+                  f"delegation is {show(rt, 200)}", node=rnode)
+        tg = bound.get(ops[1], ("const", None))
+        if strip_conv(tg)[0] != "param":
+            conv = find_calls(tg, "mokapot.utils.convert_targets_column")
+            ctx.check(bool(conv), "C11a-targets-converted", f,
+                      "label column read from file is converted to booleans",
+                      f"targets are {show(tg, 120)} without "
+                      "convert_targets_column", node=rnode)
+        return ("delegates", rt[1])
     ctx.require(rt[0] == "bin" and rt[1] == "/",
                 f"{f.qual}: calibration is not a quotient: {show(rt, 160)}")
     key = (lambda x: show(strip_conv(x), 600))
@@ -202,18 +233,13 @@ def _check_predict(ctx, f):
               node=loop)
 
     def popped(arg):
-        t = arg
-        if not (isinstance(t, ast.Call) and ast.unparse(t.func) in (
-                "np.hstack", "np.concatenate") and t.args):
+        c = np_call(T.of(arg))
+        if not (c and c[0] in ("hstack", "concatenate") and c[1]):
             return None
-        inner = t.args[0]
-        if isinstance(inner, ast.Call) and isinstance(
-                inner.func, ast.Attribute) and inner.func.attr == "pop" \
-                and isinstance(inner.func.value, ast.Name) and \
-                len(inner.args) == 1 and isinstance(
-                    inner.args[0], ast.Constant) and \
-                inner.args[0].value == 0:
-            return inner.func.value.id
+        inner = c[1][0]
+        if inner[0] == "mcall" and inner[2] == "pop" and \
+                inner[3] == (("const", 0),) and inner[1][0] == "var":
+            return inner[1][1]
         return None
 
     ctx.require(len(call.args) >= 3, f"{f.qual}: calibrate_scores call has "
@@ -247,8 +273,8 @@ def _check_predict(ctx, f):
                   and fill_s == fill_t, "C11b-lockstep", f,
                   "per-fold score list and per-fold target list are filled "
                   "from the same fold slices under the same fold index",
-                  f"score list filled from {fill_s}, target list from "
-                  f"{fill_t}", node=call)
+                  f"score list filled from {_sh(fill_s)}, target list "
+                  f"from {_sh(fill_t)}", node=call)
     # the RuntimeError handler raises an explicit error and yields nothing
     tr = cfg.enclosing(call, (ast.Try,))
     ctx.require(tr is not None, f"{f.qual}: calibration is not inside try")
@@ -269,46 +295,40 @@ def _check_predict(ctx, f):
               "by a score", node=tr)
 
 
+def _sh(x):
+    return None if x is None else show(x[0], 80)
+
+
 def _filled_by(f, du, T, lname):
-    """Description of what is appended to per-fold list ``lname``:
-    (slices source text, index kind)."""
+    """What is appended to per-fold list ``lname``: (term of the enumerated
+    list of fold slices, 'enumerate') when slot idx(S) receives a value
+    computed from elem(S) - directly or through a predict_fold task."""
     for n in ast.walk(f.node):
-        # direct: lname[i].append(x.targets) for i, x in enumerate(S)
-        if isinstance(n, (ast.ListComp, ast.GeneratorExp)):
-            e = n.elt
-            if isinstance(e, ast.Call) and isinstance(
-                    e.func, ast.Attribute) and e.func.attr == "append" and \
-                    isinstance(e.func.value, ast.Subscript) and isinstance(
-                        e.func.value.value, ast.Name) and \
-                    e.func.value.value.id == lname:
-                g = n.generators[0]
-                if isinstance(g.iter, ast.Call) and ast.unparse(
-                        g.iter.func) == "enumerate" and isinstance(
-                            g.target, ast.Tuple):
-                    idx = g.target.elts[0].id
-                    if ast.unparse(e.func.value.slice) == idx:
-                        return (ast.unparse(g.iter.args[0]), "enumerate")
+        if not isinstance(n, ast.Call):
+            continue
+        # direct: lname[i].append(g(x)) for i, x in enumerate(S)
+        if isinstance(n.func, ast.Attribute) and n.func.attr == "append" \
+                and isinstance(n.func.value, ast.Subscript) and isinstance(
+                    n.func.value.value, ast.Name) and \
+                n.func.value.value.id == lname and len(n.args) == 1:
+            it = T.of(n.func.value.slice)
+            vt = T.of(n.args[0])
+            if it[0] == "idx" and any(x == ("elem", it[1])
+                                      for x in walk_term(vt)):
+                return (it[1], "enumerate")
+            return None
         # through predict_fold(model=.., fold=i, psms=x, scores=lname)
-        if isinstance(n, ast.Call) and isinstance(n.func, ast.Call) and \
+        if isinstance(n.func, ast.Call) and \
                 ast.unparse(n.func.func) == "delayed":
             kws = {k.arg: k.value for k in n.keywords}
             if "scores" in kws and isinstance(kws["scores"], ast.Name) and \
-                    kws["scores"].id == lname:
-                gen = None
-                for m in ast.walk(f.node):
-                    if isinstance(m, ast.GeneratorExp) and m.elt is n:
-                        gen = m
-                if gen is None:
-                    return None
-                g = gen.generators[0]
-                if isinstance(g.iter, ast.Call) and ast.unparse(
-                        g.iter.func) == "enumerate" and isinstance(
-                            g.target, ast.Tuple):
-                    idx = g.target.elts[0].id
-                    el = g.target.elts[1].id
-                    if ast.unparse(kws.get("fold")) == idx and \
-                            ast.unparse(kws.get("psms")) == el:
-                        return (ast.unparse(g.iter.args[0]), "enumerate")
+                    kws["scores"].id == lname and "fold" in kws and \
+                    "psms" in kws:
+                it = T.of(kws["fold"])
+                vt = T.of(kws["psms"])
+                if it[0] == "idx" and vt == ("elem", it[1]):
+                    return (it[1], "enumerate")
+                return None
     return None
 
 
